@@ -78,6 +78,8 @@ pub struct Epd2in13<SPI, BUSY, DC, RST, DELAY> {
     /// Background Color
     background_color: Color,
     refresh: RefreshLut,
+    /// false while an initialisation sequence has been started but did not complete
+    initialized: bool,
 }
 
 impl<SPI, BUSY, DC, RST, DELAY> InternalWiAdditions<SPI, BUSY, DC, RST, DELAY>
@@ -91,6 +93,7 @@ where
 {
     fn init(&mut self, spi: &mut SPI, delay: &mut DELAY) -> Result<(), SPI::Error> {
         // HW reset
+        self.initialized = false;
         self.interface.reset(delay, 10_000, 10_000);
 
         if self.refresh == RefreshLut::Quick {
@@ -169,6 +172,7 @@ where
         }
 
         self.wait_until_idle(spi, delay)?;
+        self.initialized = true;
         Ok(())
     }
 }
@@ -196,6 +200,7 @@ where
             sleep_mode: DeepSleepMode::Mode1,
             background_color: DEFAULT_BACKGROUND_COLOR,
             refresh: RefreshLut::Full,
+            initialized: false,
         };
 
         epd.init(spi, delay)?;
@@ -423,7 +428,8 @@ where
         delay: &mut DELAY,
         refresh: RefreshLut,
     ) -> Result<(), SPI::Error> {
-        if self.refresh != refresh {
+        // also re-initialize if an earlier (re-)initialization failed half way
+        if self.refresh != refresh || !self.initialized {
             self.refresh = refresh;
             self.init(spi, delay)?;
         }
